@@ -26,8 +26,8 @@ def instances(tier):
                 out.append(Instance("layout.str.%s.%s.L%d" % (wrap, align, L), "h_layout", {"wrap": wrap, "align": align, "L": L, "kind": "str", "enc": "utf8"},
                                     timeout=600 if q else 2400))
         for wrap in ("any", "space", "clip", "ellipsis"):
-            if L <= (2 if q else 3):
-                out.append(Instance("render.str.%s.L%d" % (wrap, L), "h_render", {"wrap": wrap, "align": "left", "L": L, "maxw": 3 if q else 5}, timeout=600 if q else 2400))
+            if L <= 2:
+                out.append(Instance("render.str.%s.L%d" % (wrap, L), "h_render", {"wrap": wrap, "align": "left", "L": L, "maxw": 3 if q else 6}, timeout=600 if q else 2400))
     for L in ((1, 2) if q else (1, 2, 3, 4)):
         for wrap in ("any", "space", "clip"):
             out.append(Instance("layout.narrow.%s.L%d" % (wrap, L), "h_layout", {"wrap": wrap, "align": "center", "L": L, "kind": "bytes", "enc": "narrow"}, timeout=600))
